@@ -7,7 +7,10 @@ var vC18Methods = []string{"Fee", "AddQuote", "Expiry", "UpdateExpiry", "Expired
 func vcallFeeQuote(fq *FeeQuote, m int, jsonBody []byte) {
 	switch m {
 	case 0:
-		_, _ = fq.Fee(FeeTypeStandard)
+		// a caller uses the fee it was handed after the lock is released (as Tx.Change does)
+		if fee, err := fq.Fee(FeeTypeData); err == nil && fee != nil {
+			_ = fee.MiningFee.Satoshis + fee.MiningFee.Bytes
+		}
 	case 1:
 		fq.AddQuote(FeeTypeData, &Fee{FeeType: FeeTypeData, MiningFee: FeeUnit{Satoshis: 1, Bytes: 2}})
 	case 2:
@@ -46,7 +49,9 @@ func vcallFeeQuotes(f *FeeQuotes, m int) {
 	case 0:
 		_, _ = f.Quote("a")
 	case 1:
-		_, _ = f.Fee("a", FeeTypeStandard)
+		if fee, err := f.Fee("a", FeeTypeData); err == nil && fee != nil {
+			_ = fee.MiningFee.Satoshis + fee.MiningFee.Bytes
+		}
 	case 2:
 		f.AddMiner("b", NewFeeQuote())
 	case 3:
